@@ -1,14 +1,17 @@
 package main
 
 import (
+	"bytes"
 	"fmt"
 	"net"
+	"os"
 	"runtime"
 	"sync"
 	"time"
 
 	fatchoy "qchen.fun/fatchoy"
 	"qchen.fun/fatchoy/codec"
+	"qchen.fun/fatchoy/packet"
 	"qchen.fun/fatchoy/qnet"
 
 	"verifharness/hxconn"
@@ -23,6 +26,28 @@ type ListenerCase struct {
 	ConnClose string `json:"conn_close"` // accepted connections are closed before | after the listener's Close
 	Forced    string `json:"forced,omitempty"` // park-accepted: a serve loop is held right after Accept returned a connection while Close closes done (H2 point serve.accepted)
 	Jitter    uint64 `json:"jitter"`
+	// third-wave legs: configurations the cases above never used (zero values = what they used)
+	Listens  int  `json:"listens,omitempty"`  // number of Listen calls on the one server (0 = 1; -1 = NONE: Close on a server that never listened); the dials go round the listeners
+	V2       bool `json:"v2,omitempty"`       // the server's codec
+	Outsize  *int `json:"outsize,omitempty"`  // outbound queue size of the accepted connections (nil = 8)
+	Shutdown bool `json:"shutdown,omitempty"` // TcpServer.Shutdown() instead of Close()
+	Traffic  bool `json:"traffic,omitempty"`  // (with Drain) every handed-off connection carries one packet in each direction before anything is closed
+}
+
+// genListenerCfg: several listeners on one server, either codec, outbound queue 0/1/8/64, Shutdown for Close, traffic
+// through the handed-off connections, a server that never listened.
+func genListenerCfg(r *hxlib.Rand) ListenerCase {
+	c := genListener(r)
+	c.Listens = r.Pick(1, 2, 2, 3)
+	c.V2 = r.Bool()
+	out := r.Pick(0, 1, 8, 64)
+	c.Outsize = &out
+	c.Shutdown = r.Chance(1, 3)
+	c.Traffic = c.Drain && out > 0 && r.Chance(2, 3)
+	if r.Chance(1, 10) {
+		c = ListenerCase{Listens: -1, Shutdown: r.Bool(), ConnClose: "before", Jitter: r.U64()}
+	}
+	return c
 }
 
 func genListener(r *hxlib.Rand) ListenerCase {
@@ -92,11 +117,32 @@ func settle(target int, d time.Duration) int {
 func listenerOnce(c ListenerCase) (hard, soft [][2]string) {
 	base := runtime.NumGoroutine()
 	inbound := make(chan fatchoy.IPacket, 64)
-	srv := qnet.NewTcpServer(codec.NewV1Encoder(0), inbound, 8)
-	addr := freePort()
-	if err := srv.Listen(addr); err != nil {
-		return nil, nil // port raced away: not a case
+	enc, outsize := codec.NewV1Encoder(0), 8
+	if c.V2 {
+		enc = codec.NewV2Encoder(0)
 	}
+	if c.Outsize != nil {
+		outsize = *c.Outsize
+	}
+	srv := qnet.NewTcpServer(enc, inbound, outsize)
+	addr := freePort()
+	addrs := []string{addr}
+	if c.Listens >= 0 {
+		if err := srv.Listen(addr); err != nil {
+			return nil, nil // port raced away: not a case
+		}
+		for k := 1; k < c.Listens; k++ {
+			a := freePort()
+			if err := srv.Listen(a); err != nil {
+				srv.Close()
+				return nil, nil
+			}
+			addrs = append(addrs, a)
+		}
+	} else {
+		c.Before, c.During, c.Forced = 0, 0, ""
+	}
+	dialNo := 0
 	backlog := srv.BacklogChan()
 	var park *srvPark
 	if c.Forced == "park-accepted" {
@@ -116,7 +162,14 @@ func listenerOnce(c ListenerCase) (hard, soft [][2]string) {
 			c.Close()
 		}
 	}()
-	dial := func() (net.Conn, error) { return net.DialTimeout("tcp", addr, hxconn.Deadline) }
+	var dialMu sync.Mutex
+	dial := func() (net.Conn, error) {
+		dialMu.Lock()
+		a := addrs[dialNo%len(addrs)]
+		dialNo++
+		dialMu.Unlock()
+		return net.DialTimeout("tcp", a, hxconn.Deadline)
+	}
 	for k := 0; k < c.Before; k++ {
 		conn, err := dial()
 		if err != nil {
@@ -129,6 +182,11 @@ func listenerOnce(c ListenerCase) (hard, soft [][2]string) {
 			case ep := <-backlog:
 				ep.Go(fatchoy.EndpointReadWriter)
 				eps = append(eps, ep)
+				if c.Traffic {
+					if what := exchange(enc, ep, conn, inbound, k); what != "" {
+						hard = append(hard, [2]string{"listener:handed-off-connection-does-not-carry-traffic", what})
+					}
+				}
 			case <-time.After(hxconn.Deadline):
 				soft = append(soft, [2]string{"listener:accepted-connection-not-handed-off", fmt.Sprintf("connection %d did not appear on the hand-off channel", k)})
 			}
@@ -180,7 +238,15 @@ func listenerOnce(c ListenerCase) (hard, soft [][2]string) {
 		}
 	}
 	done := make(chan string, 1)
-	go func() { done <- hxlib.Guard(func() { srv.Close() }) }()
+	go func() {
+		done <- hxlib.Guard(func() {
+			if c.Shutdown {
+				srv.Shutdown()
+			} else {
+				srv.Close()
+			}
+		})
+	}()
 	if park != nil {
 		time.Sleep(20 * time.Millisecond) // steering only: Close has closed done and waits for the held loop
 		close(park.release)
@@ -195,10 +261,15 @@ func listenerOnce(c ListenerCase) (hard, soft [][2]string) {
 		return
 	}
 	dw.Wait()
-	if conn, err := net.DialTimeout("tcp", addr, time.Second); err == nil {
-		conn.Close()
-		// soft: some other process on this machine may have been given the same port meanwhile; believed only if it repeats (new port each time)
-		soft = append(soft, [2]string{"listener:accepts-after-close", "a dial after TcpServer.Close returned was accepted"})
+	for i, a := range addrs {
+		if c.Listens < 0 {
+			break
+		}
+		if conn, err := net.DialTimeout("tcp", a, time.Second); err == nil {
+			conn.Close()
+			// soft: some other process on this machine may have been given the same port meanwhile; believed only if it repeats (new port each time)
+			soft = append(soft, [2]string{"listener:accepts-after-close", fmt.Sprintf("a dial to listener %d of %d after TcpServer.Close returned was accepted", i+1, len(addrs))})
+		}
 	}
 	// connections that were accepted while Close ran are still in the (now closed) hand-off channel: never started,
 	// nothing to join; the harness closes their sockets itself
@@ -261,6 +332,9 @@ func runListener(r *hxlib.Run, c ListenerCase) {
 			break
 		}
 		r.Count("re-run-after-suspected-hang")
+		if os.Getenv("HX_DEBUG") != "" {
+			fmt.Fprintf(os.Stderr, "listener re-run %+v soft=%v\n", c, soft)
+		}
 	}
 	rc := map[string]interface{}{"listener": c}
 	for _, f := range append(hard, soft...) {
@@ -269,4 +343,38 @@ func runListener(r *hxlib.Run, c ListenerCase) {
 	if c.During > 0 {
 		r.NonTrivial(fmt.Sprintf("listener %+v", c))
 	}
+}
+
+// exchange: one packet from the handed-off endpoint to its client and one frame back; the inbound packet must be
+// bound to exactly that endpoint. Returns "" or what went wrong.
+func exchange(enc codec.Encoder, ep fatchoy.Endpoint, client net.Conn, inbound chan fatchoy.IPacket, k int) string {
+	body := hxconn.Body(7000+k, 20+k)
+	if err := ep.SendPacket(packet.New(int32(7000+k), uint16(k), 0, body)); err != nil {
+		return fmt.Sprintf("SendPacket on handed-off connection %d: %v", k, err)
+	}
+	client.SetDeadline(time.Now().Add(hxconn.Deadline))
+	defer client.SetDeadline(time.Time{})
+	got := packet.Make()
+	if err := enc.ReadPacket(client, nil, got); err != nil {
+		return fmt.Sprintf("the client of handed-off connection %d did not receive the packet sent to it: %v", k, err)
+	}
+	if got.Command() != int32(7000+k) || !bytes.Equal(got.BodyToBytes(), body) {
+		return fmt.Sprintf("the client of handed-off connection %d received command %d, sent 7000+%d", k, got.Command(), k)
+	}
+	if _, err := enc.WritePacket(client, nil, packet.New(int32(8000+k), uint16(k), 0, hxconn.Body(8000+k, 9))); err != nil {
+		return ""
+	}
+	select {
+	case p := <-inbound:
+		pp, ok := p.(*packet.Packet)
+		if !ok || p.Command() != int32(8000+k) {
+			return fmt.Sprintf("frame 8000+%d written by client %d arrived as command %d", k, k, p.Command())
+		}
+		if pp.Endpoint() != fatchoy.MessageEndpoint(ep) {
+			return fmt.Sprintf("the frame client %d wrote arrived bound to another endpoint than the one handed off for it", k)
+		}
+	case <-time.After(hxconn.Deadline):
+		return fmt.Sprintf("the frame client %d wrote did not reach the server's inbound queue within %v", k, hxconn.Deadline)
+	}
+	return ""
 }
